@@ -92,32 +92,76 @@ def run_z3old(text, timeout_s, want_model=False):
     return run_cli([c for c in cmd if c], text, timeout_s)
 
 
+def _cmd(be, timeout_s, want_model):
+    import shutil
+    if be == 'cvc5':
+        c = [CVC5, '--strings-exp', '--tlimit=%d' % int(timeout_s * 1000), '--lang=smt2']
+        if want_model:
+            c.append('--produce-models')
+        return c
+    if be == 'z3':
+        exe = Z3NEW if os.path.exists(Z3NEW) else (shutil.which('z3-new') or Z3OLD)
+        return [exe, '-T:%d' % max(1, int(timeout_s)), '-smt2']
+    return [Z3OLD, '-T:%d' % max(1, int(timeout_s)), '-smt2']
+
+
 def solve(text, timeout_s=10, thorough=False, want_model=False):
-    """Portfolio.  Returns dict(result, backend, secs, attempts=[...], model)."""
+    """Portfolio, back ends run concurrently on the same SMT-LIB text; the first definitive answer wins
+    (quick tier) or all are awaited and compared (thorough).  Returns dict(result, backend, secs, attempts, model)."""
+    backends = ['z3', 'cvc5'] + (['z3old'] if thorough else [])
+    fd, path = tempfile.mkstemp(suffix='.smt2', dir=os.environ.get('PYVC_TMP', None))
+    t0 = time.time()
+    procs = {}
     attempts = []
-    order = ['cvc5', 'z3'] if has_strings(text) else ['z3', 'cvc5']
-    if thorough:
-        order = order + ['z3old']
     final = None
-    for be in order:
-        if be == 'z3':
-            r = run_z3new(text, timeout_s, want_model)
-        elif be == 'cvc5':
-            r = run_cvc5(text, timeout_s, want_model)
-        else:
-            r = run_z3old(text, timeout_s, want_model)
-        attempts.append({'backend': be, 'result': r[0], 'secs': round(r[1], 3), 'reason': r[3]})
-        if r[0] in ('unsat', 'sat'):
-            if final is None:
-                final = {'result': r[0], 'backend': be, 'secs': r[1], 'model': r[2]}
-                if not thorough:
-                    break
-            elif final['result'] != r[0]:
-                return {'result': 'conflict', 'backend': be, 'secs': r[1], 'attempts': attempts, 'model': None}
+    try:
+        with os.fdopen(fd, 'w') as f:
+            f.write(text)
+        for be in backends:
+            procs[be] = subprocess.Popen(_cmd(be, timeout_s, want_model) + [path], stdout=subprocess.PIPE, stderr=subprocess.PIPE, universal_newlines=True)
+        pending = dict(procs)
+        deadline = t0 + timeout_s + 5
+        while pending and time.time() < deadline:
+            for be, p in list(pending.items()):
+                rc = p.poll()
+                if rc is None:
+                    continue
+                out, err = p.communicate()
+                del pending[be]
+                out = (out or '').strip()
+                first = out.split('\n', 1)[0].strip() if out else ''
+                secs = time.time() - t0
+                if first in ('sat', 'unsat'):
+                    attempts.append({'backend': be, 'result': first, 'secs': round(secs, 3), 'reason': ''})
+                    rest = out.split('\n', 1)[1] if '\n' in out else None
+                    if final is None:
+                        final = {'result': first, 'backend': be, 'secs': secs, 'model': rest}
+                    elif final['result'] != first:
+                        final = {'result': 'conflict', 'backend': be, 'secs': secs, 'model': None}
+                elif first == 'unknown' or 'timeout' in out or 'timeout' in (err or '') or 'interrupted' in (err or ''):
+                    attempts.append({'backend': be, 'result': 'unknown', 'secs': round(secs, 3), 'reason': ('timeout' if first != 'unknown' else (err or '').strip()[:200])})
+                else:
+                    attempts.append({'backend': be, 'result': 'error', 'secs': round(secs, 3), 'reason': (out + ' ' + (err or ''))[:400]})
+            if final is not None and not thorough:
+                break
+            if pending:
+                time.sleep(0.005)
+        for be, p in pending.items():
+            try:
+                p.kill()
+                p.communicate()
+            except Exception:
+                pass
+            if final is None or thorough:
+                attempts.append({'backend': be, 'result': 'unknown', 'secs': round(time.time() - t0, 3), 'reason': 'timeout'})
+    finally:
+        try:
+            os.unlink(path)
+        except OSError:
+            pass
     if final is None:
         errs = [a for a in attempts if a['result'] == 'error']
-        final = {'result': 'error' if len(errs) == len(attempts) else 'unknown', 'backend': None,
-                 'secs': sum(a['secs'] for a in attempts), 'model': None}
+        final = {'result': 'error' if (attempts and len(errs) == len(attempts)) else 'unknown', 'backend': None, 'secs': time.time() - t0, 'model': None}
     final['attempts'] = attempts
     return final
 
